@@ -11,7 +11,7 @@ CONSTANTS MaxCells, EmitRows, ColTypes
 VARIABLE col
 
 MCStrLen   == <<0, 1, 1, 2, 3>>                     \* ids 1..5: "", "a", "b", "ab", "abc"-like
-MCRexMatch == <<{1}, {2, 3}, {2, 3, 4, 5}, {4}, {1, 2, 3, 4, 5}>>
+MCRexMatch == <<{1}, {2, 3}, {2, 3, 4, 5}, {4, 5}, {1, 2, 3, 4, 5}>>     \* the fourth is a prefix pattern (no trailing $)
 
 Grid(t) == CASE t = "real"   -> {-16, -12, -8, 0, 4, 8, 12, 16}
              [] t = "int"    -> {-16, -8, 0, 8, 16}
